@@ -100,11 +100,11 @@ type c05Step struct {
 }
 
 type c05Case struct {
-	Name     string    `json:"name"`
-	Steps    []c05Step `json:"steps"`
-	Outcome  string    `json:"outcome"`   // nil (commit) | error (rollback)
-	PhaseTwo string    `json:"phase_two"` // normal | repeat2 | repeat3 | unknown-resource | empty-appdata | malformed-appdata | non-object-context | both-kinds
-	P2Script string    `json:"p2_script"` // ok | err-then-ok | false | panic
+	Name     string            `json:"name"`
+	Steps    []c05Step         `json:"steps"`
+	Outcome  string            `json:"outcome"`   // nil (commit) | error (rollback)
+	PhaseTwo string            `json:"phase_two"` // normal | repeat2 | repeat3 | unknown-resource | empty-appdata | malformed-appdata | non-object-context | both-kinds
+	P2Script string            `json:"p2_script"` // ok | err-then-ok | false | panic
 	Feat     map[string]string `json:"features"`
 }
 
@@ -391,15 +391,15 @@ func c05Run(r *vc.Run, w *world.World, ch *vc.Child, c *c05Case) bool {
 	commit := c.Outcome == "nil" && res.Returned == "nil"
 	bs := w.TC.BranchesOf(xid)
 	type p2req struct {
-		Kind    string
-		Branch  int64
-		Res     string
-		App     string
-		Known   bool
+		Kind     string
+		Branch   int64
+		Res      string
+		App      string
+		Known    bool
 		Readable bool
-		ReqSeq  int64
-		RespSeq int64
-		Status  int64 // -1 none
+		ReqSeq   int64
+		RespSeq  int64
+		Status   int64 // -1 none
 	}
 	var sentReqs []*p2req
 	send := func(kind string, b *faketc.Branch, resource, app string, known, readable bool) {
